@@ -1,13 +1,15 @@
 #!/bin/sh
-# usage: tools/integrate.sh /tmp/w_cNN   — copy an agent's new files into /verif, list its repo commits
+# usage: tools/integrate.sh /tmp/w_cNN   — copy an agent's new/changed files into /verif (relative to the copy's base commit,
+# whether or not the agent committed inside the copy); generated files, findings, evidence and work dirs are left out
 set -e
 D="$1"
 cd "$D"
-git status --short | grep -v -E ' (harness/src/main.rs|lean/Main.lean|lean/IcyVerif.lean|MANIFEST.json|known_findings.txt|HANDOFF.md|evidence/|work/|replays/|harness/Cargo.lock|repo/?$|.verif_repo)' | while read st f; do
+BASE=$(git rev-list --max-parents=0 HEAD | tail -1)
+{ git diff --name-status "$BASE" HEAD; git status --short | sed -E 's/^ ?([A-Z?]+) +/\1\t/'; } | awk -F'\t' '{print $1"\t"$NF}' | sort -u -k2,2 |
+ grep -v -P '\t(harness/src/main.rs|lean/Main.lean|lean/IcyVerif.lean|lean/lakefile.toml|lean/DrvMain/.*|MANIFEST.json|known_findings.txt|HANDOFF.md|evidence/.*|work/.*|replays/.*|harness/Cargo.lock|harness/Cargo.toml|repo/?|.verif_repo)$' | while IFS="$(printf '\t')" read st f; do
+  case "$st" in D*) echo "DELETED in copy (not removed here): $f"; continue;; esac
   case "$f" in
     */) mkdir -p "/verif/$f"; cp -r "$D/$f." "/verif/$f" ; echo "copied dir $f";;
-    *) mkdir -p "/verif/$(dirname "$f")"; cp "$D/$f" "/verif/$f"; echo "copied $f ($st)";;
+    *) [ -e "$D/$f" ] || continue; mkdir -p "/verif/$(dirname "$f")"; cp "$D/$f" "/verif/$f"; echo "copied $f ($st)";;
   esac
 done
-echo "--- known_findings.txt lines:"; cat "$D/known_findings.txt" 2>/dev/null || true
-echo "--- repo commits:"; git -C "$D/repo" log --oneline --reverse cdb5b60..HEAD
